@@ -316,6 +316,57 @@ def shard_small(binpath, seed, sh, nshards, sample):
     return res
 
 
+def prefix_algebra_cases():
+    """complete, seed-independent family for the prefix arithmetic of MATCH: every source prefix x destination prefix
+    (absent or one of PREFIXES) x a pattern x an item artifact chosen among the names that a correct or a sloppy treatment
+    of the source prefix could take for "below the prefix" (directory prefix, same characters without separator, nested
+    twice) x the referenced step holding the counterpart under the correct destination name, under sloppy ones, or not at
+    all.  Rules: [MATCH .., DISALLOW *] on products."""
+    pres = [None] + PREFIXES[:4]
+    for sp in pres:
+        for dp in pres:
+            for base in ("x", "a.c"):
+                item_names = {base}
+                if sp:
+                    item_names |= {sp + "/" + base, sp + base, sp + "/" + sp + "/" + base, sp + "x/" + base}
+                for pat in ("*", base):
+                    for iname in sorted(item_names):
+                        correct = (dp + "/" if dp else "") + base
+                        sloppy = sorted({correct, base, (dp or "") + base, (dp + "/" + dp + "/" + base) if dp else base, "/" + base} - {""})
+                        for rname in sloppy + [None]:
+                            for same in (True, False):
+                                if rname is None and not same:
+                                    continue
+                                rule = ["MATCH", pat] + (["IN", sp] if sp else []) + ["WITH", "PRODUCTS"] + (["IN", dp] if dp else []) + ["FROM", "ref0"]
+                                item = scen.mk_step("item", 1, [], [], [], [rule, ["DISALLOW", "*"]])
+                                links = {"item": scen.mk_link("item", {}, {iname: dg(2)}, [], {}, None)}
+                                if rname is not None and not rname.startswith("/"):
+                                    links["ref0"] = scen.mk_link("ref0", {}, {rname: dg(2) if same else dg(6)}, [], {}, None)
+                                elif rname is not None:
+                                    continue
+                                else:
+                                    links["ref0"] = scen.mk_link("ref0", {}, {}, [], {}, None)
+                                yield to_case("step", item, links, {"family": "prefix_algebra"})
+
+
+def shard_prefix_algebra(binpath):
+    res = common.Result()
+    cases = list(prefix_algebra_cases())
+    obs = common.run_sharded(binpath, cases, keys=False)
+    n = 0
+    for c, o in zip(cases, obs):
+        want = judge(c, o, res)
+        if want is None:
+            continue
+        n += 1
+        res.evaluations += 1
+        res.classes["prefix_algebra:" + ("accept" if want else "reject")] += 1
+        if n % 17 == 0:
+            res.distinct.add(common.h8([c["item"], c["links"]]))
+    res.extras["prefix_algebra_cases"] = n
+    return res
+
+
 # ---- end to end ----------------------------------------------------------------------------
 
 
@@ -438,6 +489,7 @@ def main(ctx):
                                               "3 referenced-step states"]
     else:
         res.merge(shard_small(ctx.bin, ctx.seed, 0, n, 0.01))
+    res.merge(shard_prefix_algebra(ctx.bin))
     res.merge(e2e(ctx.bin, ctx.seed, 300 if not ctx.thorough else 5000))
     return common.finish(
         PROP, ctx.tier, ctx.seed, res, t0=ctx.t0,
